@@ -621,7 +621,57 @@ func runUnpack(c *core.Ctx, up *ssa.Function) {
 		"fallback is not guarded by err == protoregistry.NotFound", pos(findDesc.Pos()), src)
 	// 3. every other resolver error is returned: on the false branch of NotFound test, err != nil leads to a return of that err
 	otherErrOK := false
-	if nfIf != nil && findErr != nil {
+	// semantic form: assume the type resolver's error is neither nil nor NotFound and follow the (then unique) path
+	// from the call: every test of that error against nil / NotFound is decided, and the path must end in
+	// `return nil, <that error>` before anything else is tested
+	if findErr != nil {
+		isNotFound := func(v ssa.Value) bool {
+			if u, ok := v.(*ssa.UnOp); ok {
+				if g, ok := u.X.(*ssa.Global); ok && g.String() == "google.golang.org/protobuf/reflect/protoregistry.NotFound" {
+					return true
+				}
+			}
+			return false
+		}
+		b, pred := find.Block(), (*ssa.BasicBlock)(nil)
+		_ = pred
+		for steps := 0; steps < 30 && b != nil; steps++ {
+			switch last := b.Instrs[len(b.Instrs)-1].(type) {
+			case *ssa.Return:
+				otherErrOK = len(last.Results) == 2 && last.Results[1] == findErr && isNilConst(last.Results[0])
+				b = nil
+			case *ssa.Jump:
+				b = b.Succs[0]
+			case *ssa.If:
+				bo, ok := last.Cond.(*ssa.BinOp)
+				if !ok || (bo.Op != token.EQL && bo.Op != token.NEQ) {
+					b = nil
+					break
+				}
+				other := bo.Y
+				if bo.X != findErr {
+					if bo.Y != findErr {
+						b = nil
+						break
+					}
+					other = bo.X
+				}
+				if !isNilConst(other) && !isNotFound(other) {
+					b = nil
+					break
+				}
+				// err is neither nil nor NotFound: == is false, != is true
+				if bo.Op == token.NEQ {
+					b = b.Succs[0]
+				} else {
+					b = b.Succs[1]
+				}
+			default:
+				b = nil
+			}
+		}
+	}
+	if !otherErrOK && nfIf != nil && findErr != nil {
 		for _, r := range *findErr.Referrers() {
 			b, ok := r.(*ssa.BinOp)
 			if !ok || b.Op != token.NEQ || !(isNilConst(b.X) || isNilConst(b.Y)) {
